@@ -78,6 +78,8 @@ pub struct Outcome {
     pub trace: Trace,
     /// panic messages from any thread during this run
     pub panics: Vec<String>,
+    /// worker tasks that were still running when `Txtpp::run` returned
+    pub late_tasks: u64,
     pub wall: Duration,
 }
 
@@ -224,10 +226,21 @@ pub fn run_inproc(cfg: &RunCfg, spec: Spec, cwd: Option<&Path>, log_events: bool
             Err(mpsc::RecvTimeoutError::Disconnected) => break Verdict::MainPanic("coordinator thread vanished".into()),
         }
     };
+    // `Txtpp::run` joins its workers before it returns. If tasks are still running now, give them
+    // a moment to finish so that what they do (e.g. panic on a closed channel) is attributed to
+    // this run and not lost.
+    let mut late_tasks = 0;
+    if matches!(verdict, Verdict::Ok | Verdict::Err(_)) {
+        late_tasks = ctl.in_flight_now();
+        let until = Instant::now() + Duration::from_secs(4);
+        while ctl.in_flight_now() > 0 && Instant::now() < until {
+            std::thread::sleep(Duration::from_millis(20));
+        }
+    }
     let wall = t0.elapsed();
     let trace = ctl.disarm();
     let panics = PANICS.lock().map(|p| p.clone()).unwrap_or_default();
-    Outcome { verdict, trace, panics, wall }
+    Outcome { verdict, trace, panics, wall, late_tasks }
 }
 
 fn watchdog_secs() -> u64 {
